@@ -6,9 +6,12 @@
    step is discarded unless check_current passed right after it.  That a passing
    check_current (the kernel's own /proc/thread-self/fd/N rendering of the
    descriptor equals root path + expected path) implies the object was inside the
-   root at that moment is the kernel's d_path contract (DESIGN.md C02); it is
-   exercised by the schedule-exhaustive runs of tools/props/C02.py, not proved. *)
+   root at that moment is the kernel's d_path contract (DESIGN.md C02), exercised by
+   the schedule-exhaustive runs of tools/props/C02.py; what the comparison itself
+   establishes is proved here for all byte strings (C02_check_passes_means) and for
+   all answers (C02_check_sound). *)
 From PV Require Import Discipline ProgTac PathProofs DisciplineProofs FaultProofs EscapeProofs FSModel FSProofs.
+From PV Require Import Hoare CheckProofs.
 Open Scope N_scope.
 
 Theorem C02_complete_only_via_fin :
@@ -46,6 +49,41 @@ Theorem C02_static_in_root :
   forall s df, wf s df -> forall p nf nosym o, ewalk s p nf nosym = WOk o -> reach s o.
 Proof. intros s df H. apply (emu_in_root s df H). Qed.
 
+(* what check_current's comparison establishes, for ALL byte strings: the kernel's
+   rendering of the current descriptor consists of the root path's components
+   followed by exactly the expected components (std::path normalisation) *)
+Theorem C02_check_passes_means :
+  forall root_path cur_path exp,
+    path_eq cur_path (OpathM.push_all root_path ([DOT] :: exp)) = true ->
+    Forall name_ok exp ->
+    nf cur_path = nf root_path ++ exp.
+Proof. exact check_passes_means. Qed.
+
+(* for all answers: the check passes only if the three renderings it read --
+   root, current, root again -- satisfy both comparisons *)
+Theorem C02_check_sound :
+  forall cur root exp,
+    spec (fun _ _ => True)
+         (fun res h => res = Ok tt ->
+            exists c1 c2 c3 p1 p2 p3,
+              h = [(c3, RBytes p3); (c2, RBytes p2); (c1, RBytes p1)] /\
+              path_eq p2 (OpathM.push_all p1 ([DOT] :: exp)) = true /\ path_eq p1 p3 = true)
+         [] (check_current_gen g0 cur root exp).
+Proof. exact check_gen_sound. Qed.
+
+Theorem C02_check_current_is_that_check :
+  forall fz o2 pfuel gh cur root exp,
+    OpathM.check_current fz o2 pfuel gh cur root exp = check_current_gen (ProcfsM.as_unsafe_path fz o2 pfuel gh) cur root exp.
+Proof. exact check_current_is_gen. Qed.
+
+Example C02_check_example :
+  path_eq (b "/srv/root//a/./b/") (OpathM.push_all (b "/srv/root") ([DOT] :: [b "a"; b "b"])) = true /\
+  nf (b "/srv/root//a/./b/") = [b "srv"; b "root"; b "a"; b "b"] /\
+  path_eq (b "/srv/a/b") (OpathM.push_all (b "/srv/root") ([DOT] :: [b "a"; b "b"])) = false /\
+  path_eq (b "/srv/root/a/b (deleted)") (OpathM.push_all (b "/srv/root") ([DOT] :: [b "a"; b "b"])) = false.
+Proof. vm_compute. repeat split. Qed.
+
+
 Check C02_complete_only_via_fin :
   forall fz ps chk fin budget nosym nofollow,
     (forall st, okp TC TS not_complete (fin st)) ->
@@ -61,3 +99,6 @@ Print Assumptions C02_dotdot_checked.
 Print Assumptions C02_instantiation.
 Print Assumptions C02_kern_bounded_retry.
 Print Assumptions C02_static_in_root.
+Print Assumptions C02_check_passes_means.
+Print Assumptions C02_check_sound.
+Print Assumptions C02_check_current_is_that_check.
